@@ -31,6 +31,7 @@ var suites = map[string]suiteFn{
 	"mem-roles":        adapters.RolesSuite(adapters.MemRoles),
 	"live-supervise":   live.Supervise,
 	"live-await":       live.AwaitSuite,
+	"live-connector":   live.ConnectorSuite,
 	"sim-schedule":     sim.ScheduleSuite,
 	"mem-streamer":     adapters.StreamerSuite,
 	"mem-connector":    adapters.ConnectorSuite,
